@@ -9,6 +9,7 @@ _reg('isa', ['I1'])
 _reg('jit', ['J1'])
 _reg('recip', ['R1', 'R2'])
 _reg('api', ['H1', 'D2', 'I7'])
+_reg('life', ['H6'])
 
 PROPS = {
  'C11': dict(level='other', lemmas=['B1', 'B2', 'B3', 'B4', 'B5'],
@@ -35,5 +36,8 @@ PROPS = {
    explanation='TODO', trusted=[], outside=[]),
  'C13': dict(level='other', lemmas=['H1'],
    files=['src/randomx.cpp', 'src/virtual_machine.cpp', 'src/intrin_portable.h', 'src/instructions_portable.cpp', 'src/jit_compiler_x86.cpp', 'src/bytecode_machine.hpp'],
+   explanation='TODO', trusted=[], outside=[]),
+ 'C15': dict(level='other', lemmas=['H6'],
+   files=['src/randomx.cpp', 'src/allocator.cpp', 'src/virtual_memory.c', 'src/virtual_machine.cpp', 'src/vm_compiled.hpp', 'src/vm_interpreted.hpp', 'src/jit_compiler_x86.cpp', 'src/dataset.hpp', 'src/dataset.cpp'],
    explanation='TODO', trusted=[], outside=[]),
 }
